@@ -95,16 +95,16 @@ Print Assumptions C05_route_advertise.
 (** NodeInfo: DecodeNodeInfo (modelled with its sticky reader error, count
     clamps and optional tail fields) inverts EncodeNodeInfo on every NodeInfo
     within the limits (strings < 256 bytes, < 256 addresses, <= 50 peers, <= 20
-    listeners, <= 10 shells).
-    NOT PROVED (hence _partial): stability of DecodeNodeInfo on arbitrary
-    bytes, i.e. [forall b m, decode_NI b = Some m -> wf_NI m = true] (from
-    which re-encoding stability follows by the theorem below); this half is
-    covered by the harness's stability monitor on the implementation only. *)
-Theorem C05_node_info_partial :
+    listeners, <= 10 shells); and whatever it returns from ARBITRARY bytes
+    (truncated tails, hostile counts) is within those limits, hence decodes
+    again from its own encoding. *)
+Theorem C05_node_info :
   lossless encode_NI decode_NI wf_NI /\
-  (forall m, wf_NI m = true -> decode_NI (enc NI_c m) = Some m).
-Proof. exact (conj NI_lossless NI_roundtrip). Qed.
-Print Assumptions C05_node_info_partial.
+  stable encode_NI decode_NI wf_NI /\
+  (forall m, wf_NI m = true -> decode_NI (enc NI_c m) = Some m) /\
+  (forall b m, decode_NI b = Some m -> wf_NI m = true).
+Proof. exact (conj NI_lossless (conj NI_stable (conj NI_roundtrip decode_NI_wf))). Qed.
+Print Assumptions C05_node_info.
 
 (** NodeInfoAdvertise (Info / optional EncInfo, same normal-form treatment as RouteAdvertise). *)
 Theorem C05_node_info_advertise :
